@@ -75,6 +75,13 @@ class Mod:
                     else:
                         keep.append(d_)
                 m_.decorator_list = keep
+        # module-level memoised functions (class name None)
+        for m_ in [x for x in self.tree.body if isinstance(x, ast.FunctionDef)]:
+            for d_ in m_.decorator_list:
+                core = d_.func if isinstance(d_, ast.Call) else d_
+                nm_ = core.attr if isinstance(core, ast.Attribute) else core.id if isinstance(core, ast.Name) else None
+                if nm_ in ("lru_cache", "cache"):
+                    self.memoised.append((None, m_, nm_))
         # helpers introduced after the pinned commit are inlined into their callers (see inline.py)
         from inline import Inliner, StructNorm, Evolve
         self.struct_normalised = StructNorm(self.tree).run()
